@@ -327,29 +327,41 @@ def tr_ignore(repo, consumed):
 
 
 def tr_remove_useless(repo, consumed):
-    """how remove_useless_nodes re-attaches nodal variables to the kept nodes:
-    by storage position (value.data[useful_indices]) or by node id
-    (value.loc[self.nodes.ids].values)"""
+    """how remove_useless_nodes re-attaches nodal variables to the kept nodes: matched on the
+    rebinding EXPRESSION  FEMAttribute(value.name, <ids>, <data>)  wherever it stands (loop,
+    comprehension, ...):  <data> = value.loc[<ids>].values with <ids> the new node ids -> by
+    node id (True);  <data> = value.data[useful_indices] -> by storage position (False)"""
     txt, tree = _src(repo, 'femio/fem_data.py')
     fn = _find_func(_find_class(tree, 'FEMData'), 'remove_useless_nodes')
     consumed['fem_data.py:remove_useless_nodes'] = _region(txt, fn)
-    loops = [n for n in fn.body if isinstance(n, ast.For)
-             and ast.unparse(n.iter) == 'self.nodal_data.items()']
-    if len(loops) != 1 or ast.unparse(loops[0].target) != '(key, value)' or len(loops[0].body) != 1:
-        raise TranslateError('remove_useless_nodes: nodal_data loop not found')
-    st = loops[0].body[0]
-    if not (isinstance(st, ast.Assign) and ast.unparse(st.targets[0]) == 'self.nodal_data[key]'
-            and isinstance(st.value, ast.Call) and ast.unparse(st.value.func) == 'FEMAttribute'
-            and len(st.value.args) == 3 and not st.value.keywords
-            and ast.unparse(st.value.args[0]) == 'value.name'
-            and ast.unparse(st.value.args[1]) == 'self.nodes.ids'):
-        raise TranslateError('remove_useless_nodes: unexpected nodal_data assignment')
-    x = ast.unparse(st.value.args[2])
-    if x == 'value.data[useful_indices]':
-        return False
-    if x == 'value.loc[self.nodes.ids].values':
+    calls = [n for n in ast.walk(fn) if isinstance(n, ast.Call)
+             and ast.unparse(n.func) == 'FEMAttribute' and len(n.args) == 3
+             and ast.unparse(n.args[0]) == 'value.name']
+    if len(calls) != 1 or calls[0].keywords:
+        raise TranslateError('remove_useless_nodes: rebinding of nodal variables not found')
+    ids, data = ast.unparse(calls[0].args[1]), ast.unparse(calls[0].args[2])
+    # the new node table: kept rows of the old one, ids and coordinates together
+    new_nodes_ok = any(
+        isinstance(n, ast.Assign) and ast.unparse(n.targets[0]) in ('self.nodes', 'new_nodes')
+        and isinstance(n.value, ast.Call) and ast.unparse(n.value.func) == 'FEMAttribute'
+        and [ast.unparse(x) for x in n.value.args] ==
+        ['self.nodes.name', 'self.nodes.ids[useful_indices]', 'self.nodes.data[useful_indices]']
+        for n in ast.walk(fn))
+    if not new_nodes_ok:
+        raise TranslateError('remove_useless_nodes: construction of the new node table not understood')
+    src = ast.unparse(fn)
+    if ids == 'new_nodes.ids' and 'self.nodes = new_nodes' not in src:
+        raise TranslateError('remove_useless_nodes: new_nodes is not installed as self.nodes')
+    if ids not in ('self.nodes.ids', 'new_nodes.ids'):
+        raise TranslateError(f'remove_useless_nodes: nodal variables re-labelled with {ids!r}')
+    # the values in value.items() must iterate self.nodal_data
+    if 'self.nodal_data.items()' not in src:
+        raise TranslateError('remove_useless_nodes: does not iterate self.nodal_data')
+    if data == f'value.loc[{ids}].values':
         return True
-    raise TranslateError(f'remove_useless_nodes: nodal data re-attached by {x!r}: not understood')
+    if data == 'value.data[useful_indices]':
+        return False
+    raise TranslateError(f'remove_useless_nodes: nodal data re-attached by {data!r}: not understood')
 
 
 def tr_generate_constraints(repo, consumed):
